@@ -19,7 +19,7 @@ pub mod xa;
 use cond::{Gen, Item, Kind, OddRule, Stats};
 use std::cmp::Ordering;
 use vcore::*;
-use vmodels::expand::{delivered_text, Delivered, ExpandError, Expander, Meaning, NoexpandRule};
+use vmodels::expand::{delivered_text_until_unmatched, Delivered, ExpandError, Expander, Meaning, NoexpandRule};
 use vmodels::macrocall::{lex_line, to_source, Tok, TrimRule};
 use vstate::{Event, Outcome, VmOptions};
 use xa::{Flavor, MacroSet, StreamStats};
@@ -322,9 +322,12 @@ fn run_streams(simple: bool, preamble: &str, streams: &[String]) -> Result<Vec<X
 }
 
 struct Reference {
-    /// text delivered to the main loop; None if an unmatched `}` or an undefined control sequence
-    /// was delivered (outside the modelled domain)
+    /// text delivered to the main loop (up to an unmatched `}`, if any); None if an undefined
+    /// control sequence was delivered (outside the modelled domain)
     out: Option<String>,
+    /// a `}` arrived at group depth 0: the real VM stops there ("there is no group to end");
+    /// `out` and `events` are what happened before
+    unmatched_brace: bool,
     events: Vec<Event>,
     /// why the run stopped early, if it did (then `out`/`events` are what happened before)
     stopped: Option<ExpandError>,
@@ -346,11 +349,15 @@ fn reference(
     e.push_input(stream);
     let stopped = e.run().err();
     let undefined = e.delivered.iter().any(|d| matches!(d, Delivered::Tok(Tok::Cs(_))));
-    let out = if undefined { None } else { delivered_text(&e.delivered) };
+    let (text, unmatched) = delivered_text_until_unmatched(&e.delivered);
+    let n_events = match unmatched {
+        Some(i) => e.delivered_after_events[i],
+        None => e.events.len(),
+    };
     Reference {
-        out,
-        events: e
-            .events
+        out: if undefined { None } else { Some(text) },
+        unmatched_brace: unmatched.is_some(),
+        events: e.events[..n_events]
             .iter()
             .map(|m| Event::Macro {
                 name: m.name.clone(),
@@ -373,6 +380,9 @@ impl Reference {
         let Some(out) = &self.out else { return false };
         if *out != run.out || self.events != run.events {
             return false;
+        }
+        if self.unmatched_brace {
+            return run.error.as_deref() == Some("there is no group to end");
         }
         match (&self.stopped, &run.error) {
             (None, None) => true,
@@ -492,6 +502,10 @@ fn check_streams(set: &MacroSet, extra_preamble: &str, streams: &[Vec<Tok>], wit
                 continue;
             }
             None => {}
+        }
+        if tex.unmatched_brace {
+            obs.skip("reference-expander:out-of-domain(unmatched-brace/undefined)");
+            continue;
         }
         let Some(tex_out) = &tex.out else {
             obs.skip("reference-expander:out-of-domain(unmatched-brace/undefined)");
@@ -828,12 +842,12 @@ impl Monitor for M {
             Phase::new("cond-enum", ENUM_TOTAL.div_ceil(ENUM_CHUNK)).batch(4).exhaustive(
                 "every \\ifodd n (44 boundary values, decimal/hex/octal/register, primitive and \\let alias), every \\ifnum a R b over 13x13 boundary values x {<,=,>} x {literal, register}, every \\ifcase n for 11 values x 1..5 cases x with/without \\else",
             ),
-            Phase::new("cond-tree", tier.pick(60_000, 2_500_000)).batch(64),
+            Phase::new("cond-tree", tier.pick(60_000, 1_500_000)).batch(64),
             Phase::new("xa-enum", XA_ENUM_CASES).batch(32).exhaustive(
                 "\\xa^k1\\a\\xa^k2\\b\\xa^k3\\c\\xa^k4\\d for all k1,k2,k3 in 0..7, k4 in 0..1 x 3 macro sets (parameterless, the repo's accumulator macros, mixed with parameters and \\noexpand) x {only \\expandafter, alternating with a \\let alias}",
             ),
-            Phase::new("xa-macro", tier.pick(15_000, 600_000)).batch(64),
-            Phase::new("xa-mixed", tier.pick(10_000, 400_000)).batch(64),
+            Phase::new("xa-macro", tier.pick(15_000, 400_000)).batch(64),
+            Phase::new("xa-mixed", tier.pick(10_000, 250_000)).batch(64),
         ]
     }
 
